@@ -45,7 +45,7 @@ class Module:
         return self
 
     # ---- verbatim data items (struct / enum / type / const / trait without contracts)
-    def item(self, sel, file=None, from_impls=True, extra_attrs='', rewrites=None):
+    def item(self, sel, file=None, from_impls=True, extra_attrs='', rewrites=None, assumed_clone=False):
         sf = self.sf(file)
         path = sel if isinstance(sel, list) else [sel]
         it = sf.find(path)
@@ -55,7 +55,7 @@ class Module:
         froms = []
         if it.kind == 'enum' and from_impls:
             froms = _thiserror_froms(sf, it)
-        generic_attr_edits(sf, it.attr_lo, it.hi, ed, self.unit.log, where)
+        generic_attr_edits(sf, it.attr_lo, it.hi, ed, self.unit.log, where, drop_derives=(('Clone',) if assumed_clone else ()))
         for rule, before, after in (rewrites or []):
             pat = [t.text for t in lex(before)]
             hits = _find_seq(toks, it.kw, it.hi, pat)
@@ -66,6 +66,12 @@ class Module:
             self.unit.log.rw(rule, where, before, after)
         text = extra_attrs + ed.render()
         self.chunks.append(Chunk(text, where, 'item', src=sha(sf.span_text(it.attr_lo, it.hi))))
+        if assumed_clone:
+            # T-std: the derived Clone of a non-Copy type returns an equal value (Verus has no spec for it)
+            self.chunks.append(Chunk('impl core::clone::Clone for %s { #[verifier::external_body] fn clone(&self) -> (r: Self) ensures r == *self { unimplemented!() } }\n' % it.name,
+                                     where + '::clone', 'd1clone'))
+            self.unit.log.rw('D1', where, '#[derive(Clone)]', 'external_body Clone impl with assumed contract r == *self')
+            self.unit.log.escapes.append({'fn': where + '::clone', 'kind': 'external_body', 'contract': 'r == *self', 'note': 'derived Clone (T-std)'})
         for (gen_decl, gen_use, ename, variant, ty) in froms:
             t = ('impl%s core::convert::From<%s> for %s%s { fn from(e: %s) -> (r: Self) { %s::%s(e) } }\n'
                  'impl%s vstd::std_specs::convert::FromSpecImpl<%s> for %s%s {\n'
